@@ -235,9 +235,85 @@ def estimator_and_maths_frame_obligations(R):
          time.time() - t0, '; '.join(bad[:5]), bad[:8] or None, bounded=f'{len(T.est_functions) + len(calls)} functions')
 
 
+FRAME_MODULES = ['aurel.core', 'aurel.maths', 'aurel.time', 'aurel.finitedifference', 'aurel.numerical', 'aurel.coresymbolic',
+                 'aurel.utils.memory']
+
+
+def two_instance_replay(hint='', N=22, cap=240):
+    """two real AurelCore objects with different data on a production-sized grid (N^3 points -- well above every size
+    the per-function obligations use): what the first one handed out must not change, nor share memory with, what the
+    second one hands out later; then the same within one object across a change of iteration (over_time)."""
+    import aurel
+    par = dict(Nx=N, Ny=N, Nz=N, xmin=-1.0, ymin=-1.1, zmin=-0.9, dx=0.1, dy=0.1, dz=0.1)
+    fd = aurel.FiniteDifference(par, boundary='no boundary', fd_order=4, verbose=False)
+    x, y, z = fd.x, fd.y, fd.z
+
+    def mk(a):
+        rel = aurel.AurelCore(fd, verbose=False)
+        one = np.ones_like(x)
+        rel.data['gammadown3'] = np.array([[(1 + a * x * x) * one, 0.1 * a * y, 0 * one], [0.1 * a * y, 1 + 0.2 * a * z * z, 0.05 * x],
+                                           [0 * one, 0.05 * x, 2 + a * np.sin(y)]])
+        rel.data['Kdown3'] = np.array([[0.1 * a * x, 0 * one, 0.02 * z], [0 * one, 0.2 * one, 0 * one], [0.02 * z, 0 * one, 0.3 * a * y]])
+        rel.data['alpha'] = 1 + 0.1 * a * x
+        rel.data['betaup3'] = np.array([0.1 * x, 0.05 * a * z, 0.2 * one])
+        rel.data['rho0'] = 1 + 0.1 * a * np.cos(x)
+        rel.freeze_data()
+        return rel
+    relA, relB = mk(1.0), mk(-0.7)
+    import aurel.core as Cm
+    keys = [k for k in Cm.descriptions if hasattr(Cm.AurelCore, k)]
+    src = {}
+    for k in keys:
+        try:
+            src[k] = inspect.getsource(getattr(Cm.AurelCore, k))
+        except Exception:
+            src[k] = ''
+    first = [k for k in keys if hint and hint in src[k]]
+    order = first + [k for k in ('st_Riemann_down4', 'st_Weyl_down4', 's_Riemann_down3', 'gup4', 'Weyl_Psi', 'st_Gamma_udd4') if k in keys and k not in first]
+    t0 = time.time()
+    lines = [f'two real AurelCore objects with different data on a {N}^3 grid; keys requested in turn: {order[:8]}...']
+    for k in order:
+        if time.time() - t0 > cap:
+            break
+        try:
+            a = relA[k]
+            if not isinstance(a, np.ndarray):
+                continue
+            a0 = np.copy(a)
+            b = relB[k]
+        except Exception as e:
+            lines.append(f'  {k}: raised {type(e).__name__}: {e}')
+            continue
+        if isinstance(b, np.ndarray) and np.shares_memory(a, b):
+            lines.append(f'  {k}: the arrays handed out by the two objects share memory')
+            return True, '\n'.join(lines)
+        if not np.array_equal(a, a0, equal_nan=True):
+            lines.append(f'  {k}: the array handed out by the first object changed after the second object\'s request (max |diff| {np.nanmax(np.abs(a - a0)):.3g})')
+            return True, '\n'.join(lines)
+    lines.append('  nothing handed out by the first object changed')
+    return False, '\n'.join(lines)
+
+
+def module_frame_obligations(R):
+    """no function of the numerical modules keeps or reaches module-level mutable state (engine/modframe.py F1-F4): a value
+    handed out earlier can then not be reached again through the module"""
+    import importlib
+    from engine.modframe import module_frame
+    for mn in FRAME_MODULES:
+        t0 = time.time()
+        mod = importlib.import_module(mn)
+        bad, nfun, state = module_frame(mod)
+        hint = bad[0].split(':')[0] if bad else ''
+        R.ob(f'{mn.split("aurel.")[-1]}.*:frame -- no function writes, memoises into or hands out module-level state', mn.split('.')[-1],
+             'refuted' if bad else 'discharged', 'ast-frame', time.time() - t0,
+             '; '.join(bad[:4]) or f'{nfun} functions; module-level containers: {state or "none"}', bad[:6] or None,
+             replay=lambda o, hint=hint: two_instance_replay(hint))
+
+
 def run(R):
     from engine.canary import run_canaries
     run_canaries(R, ('e1', 'symx'))
+    module_frame_obligations(R)
     W = Worlds(R.seed)
     npts = 1
     scens = SCENS_QUICK if R.tier == 'quick' else SCENS_THOROUGH
